@@ -473,10 +473,14 @@ def _prep_iterators(mol: Molecules, shape: tuple[int, int, int], scale: float):
 
     # construct matrices
     center = (np.array(shape) - 1.0) / 2.0
-    starts = intpos - center.astype(np.int32)
+    int_center = center.astype(np.int32)
+    starts = intpos - int_center
     stops = starts + shape
+    # The template center must come to ``pos``, that is, to ``int_center + residue`` in
+    # the fragment that will be pasted at ``starts`` (``center`` is half-integer for even
+    # shapes).
     mtxs = _compose_affine_matrices(
-        center, mol.rotator.inv(), output_center=center + residue
+        center, mol.rotator.inv(), output_center=int_center + residue
     )
 
     return starts, stops, mtxs
